@@ -514,24 +514,35 @@ unsafe impl Sync for SharedBuilder {}
 unsafe impl Send for SharedBuilder {}
 
 fn bodies_of(p: &Program) -> Vec<Body> {
-    let shared: Option<Arc<SharedBuilder>> = p.shared.as_ref().map(|c| {
-        let mut b = QRBuilder::new(c.input.clone());
-        c.opts.apply(&mut b);
-        Arc::new(SharedBuilder(b))
-    });
+    let shared_case: Option<PCase> = p.shared.clone();
     p.threads
         .iter()
         .map(|ops| {
             let ops = ops.clone();
-            let shared = shared.clone();
-            let f: Body = Arc::new(move |_tid, _s| {
+            let shared_case = shared_case.clone();
+            let f: Body = Arc::new(move |_tid, s| {
                 ops.iter()
                     .map(|op| match op {
                         TOp::Build(c) => observe(c),
-                        TOp::Shared => match subject::guarded(|| shared.as_ref().unwrap().0.build()) {
-                            Ok(r) => subject::outcome_digest(&subject::classify(r)),
-                            Err(_) => 3,
-                        },
+                        TOp::Shared => {
+                            // one builder per EXECUTION (kept in the scheduler object of this execution): a builder
+                            // that legitimately remembers its last result must not carry it into the next schedule
+                            let b: Arc<dyn std::any::Any + Send + Sync> = {
+                                let mut g = s.shared.lock().unwrap();
+                                if g.is_none() {
+                                    let c = shared_case.as_ref().unwrap();
+                                    let mut b = QRBuilder::new(c.input.clone());
+                                    c.opts.apply(&mut b);
+                                    *g = Some(Arc::new(SharedBuilder(b)));
+                                }
+                                g.as_ref().unwrap().clone()
+                            };
+                            let sb = b.downcast_ref::<SharedBuilder>().unwrap();
+                            match subject::guarded(|| sb.0.build()) {
+                                Ok(r) => subject::outcome_digest(&subject::classify(r)),
+                                Err(_) => 3,
+                            }
+                        }
                     })
                     .collect()
             });
